@@ -258,6 +258,13 @@ func (m *Muxer) validate() error {
 			return fmt.Errorf("%w: non-animated image must have exactly 1 frame", ErrMuxValidation)
 		}
 	}
+	// Metadata set through SetICCProfile/SetEXIF/SetXMP is held to the limit
+	// AddChunk enforces: the demuxer refuses larger chunks.
+	for _, md := range [][]byte{m.iccData, m.exifData, m.xmpData} {
+		if len(md) > maxMetadataSize {
+			return fmt.Errorf("%w: metadata chunk too large (%d bytes, max %d)", ErrMuxValidation, len(md), maxMetadataSize)
+		}
+	}
 	// Check that frame dimensions fit within the canvas.
 	canvasW, canvasH := m.canvasSize()
 	// The canvas must be storable: 24-bit width-1/height-1 and an area below
